@@ -256,6 +256,8 @@ def r_window(ctx):
     base = ctx.proj.cls("iterators._BaseIterator")
     impls = []
     for c in ctx.proj.subclasses(base):
+        if c is base:
+            continue          # the abstract base: its hooks are the subclasses'
         m = ctx.proj.method(c, "peek")
         if m is not None and not all(isinstance(st, (ast.Raise, ast.Expr, ast.Pass)) for st in m.node.body):
             impls.append((c, m))
